@@ -228,7 +228,9 @@ func finalSignature(v *Violation) string {
 		parts = append(parts, v.Dim)
 	}
 	switch {
-	case focus.Class == "registration" || focus.Class == "spec":
+	case focus.Class == "registration":
+		parts = append(parts, focus.Tags...)
+	case focus.Class == "spec":
 	case v.Class == "served-longer-path-below-trailing-param":
 		// the stray kind that happened to produce the longer path does not matter
 	case strings.HasPrefix(focus.Class, "stray"):
